@@ -13,11 +13,11 @@ MODULE = "PotasscoVerif.Props.C10"
 THEOREMS = ["PotasscoVerif.C10.C10_tok", "PotasscoVerif.C10.C10_int", "PotasscoVerif.C10.C10_atom_spellings", "PotasscoVerif.C10.C10_lit", "PotasscoVerif.C10.C10_lits",
             "PotasscoVerif.C10.C10_layout_irrelevant_token", "PotasscoVerif.C10.C10_atoms", "PotasscoVerif.C10.C10_rule", "PotasscoVerif.C10.stmtLoop_step",
             "PotasscoVerif.C10.C10_read_program", "PotasscoVerif.C10.C10_agg", "PotasscoVerif.C10.C10_wrule", "PotasscoVerif.C10.dMinimize_spec", "PotasscoVerif.C10.dHeuristic_spec",
-            "PotasscoVerif.C10.C10_read_programX"]
-EXTRA_MODULES = ["PotasscoVerif.Props.C10b", "PotasscoVerif.Props.C10c"]
-PARTIAL = {"C10_read_pp for #output, comments and several steps": "C10_read_programX proves the whole-program statement for one step of facts, integrity constraints, disjunctive and choice rules with normal "
+            "PotasscoVerif.C10.C10_read_programX", "PotasscoVerif.C10.stepsLoop_spec", "PotasscoVerif.C10.C10_read_incremental"]
+EXTRA_MODULES = ["PotasscoVerif.Props.C10b", "PotasscoVerif.Props.C10c", "PotasscoVerif.Props.C10d"]
+PARTIAL = {"C10_read_pp for #output and comments": "C10_read_incremental (several steps: #incremental., #step. boundaries) and C10_read_programX prove the whole-program statement for one step of facts, integrity constraints, disjunctive and choice rules with normal "
            "or weight bodies, #minimize, #assume, #project, #external (all values), #edge and #heuristic (all modifiers), for every filler, atom spelling and admissible list separator; #output statements (terms and "
-           "quoted strings), comments between statements and #incremental/#step programs are decided by correspondence and the printer oracle"}
+           "quoted strings) and comments between statements are decided by correspondence and the printer oracle"}
 BSIZES = (16, 17, 4096)
 RULE = ("programs of 0..14 statements over all statement kinds of the input syntax (facts, disjunctive/choice rules, normal and sum bodies, #minimize, #project, #output with "
         "identifier/function/quoted names, #external with all values, #assume, #heuristic with all modifiers, #edge), 1..4 steps with #incremental/#step, atoms from 1..26, small, "
@@ -34,7 +34,8 @@ LEVEL_TEXT = ("For EVERY filler (any run of blanks/tabs/CR/LF) and every stream 
               "Props/C10b.lean: C10_atoms (atom lists with any admissible separator), C10_rule (facts, constraints, disjunctive/choice rules with normal bodies), the directive lemmas and stmtLoop_step, and "
               "C10_read_program: a program (one step) of such rules and of #assume, #project, #external, #edge statements, printed with ANY filler at every optional position and ANY spelling of every atom, "
               "is read as exactly the corresponding calls in order, without error. Props/C10c.lean: C10_agg (aggregates with optional weights; weight 0 omitted), C10_wrule, #minimize, #heuristic, and C10_read_programX: the same for programs over "
-              "ALL statement kinds built from atoms, literals, integers and aggregates. #output, comments and several steps: model == real reader on every text "
+              "ALL statement kinds built from atoms, literals, integers and aggregates; Props/C10d.lean: C10_read_incremental — `#incremental.` and steps separated by `#step.`: per step beginStep, exactly its statements, endStep, "
+              "the boundaries exactly at the markers. #output and comments: model == real reader on every text "
               "(also damaged ones, incl. the reported line) and printer oracle on the implementation.")
 LEVEL_NOTE = ("Partial proof + correspondence (~5k quick / 120k thorough texts × 2 read modes × 3 buffer sizes) + printer oracle. Trusted: Lean kernel+axioms, C09 for the stream, "
               "islower/isalnum, harness, generator/oracle in props/c10.py.")
